@@ -17,12 +17,12 @@ if [ $res = 0 ]; then
   go build ./... >>$log 2>&1 || { echo "BUILD-FAILS" | tee -a $log; res=1; }
 fi
 if [ $res = 0 ]; then
-  go test -vet=off -count=1 -timeout 25m ./... > $out/suite_with_patch.log 2>&1
-  if grep -q '^FAIL' $out/suite_with_patch.log; then
+  go test -vet=off -count=1 -timeout 25m ./... > /tmp/suite_$name.log 2>&1
+  if grep -q '^FAIL' /tmp/suite_$name.log; then
      # retry failing packages once (suite has timing flakes)
-     pk=$(grep '^FAIL' $out/suite_with_patch.log | awk '{print $2}' | grep / | sort -u)
+     pk=$(grep '^FAIL' /tmp/suite_$name.log | awk '{print $2}' | grep / | sort -u)
      echo "first run had failures in: $pk ; retrying" >> $log
-     ok=1; for p in $pk; do go test -vet=off -count=1 $p >> $out/suite_with_patch.log 2>&1 || ok=0; done
+     ok=1; for p in $pk; do go test -vet=off -count=1 $p >> /tmp/suite_$name.log 2>&1 || ok=0; done
      [ $ok = 1 ] && echo "SUITE-PASSES-WITH-PATCH (after flake retry)" | tee -a $log || { echo "SUITE-FAILS-WITH-PATCH" | tee -a $log; res=1; }
   else echo "SUITE-PASSES-WITH-PATCH" | tee -a $log; fi
   for f in $out/*_test.go; do cp $f $pkg/; done
